@@ -4,7 +4,8 @@
 (* (C11 role D, C12).  File: a sequence of cases                           *)
 (*   [id, text (code points), rows (<<<<tag, value>>...>> per row),        *)
 (*    out \in {"ok", "raises", "parse_error"}, sel (selected rows as       *)
-(*    1-based indexes into rows, 0 = an object that is no source row)]     *)
+(*    1-based indexes into rows, 0 = an object that is no source row),     *)
+(*    optionally k (the limit argument, 0 = none)]                         *)
 (* One initial state per case, one verdict line per case:                  *)
 (*   <<"OK", id, class, must_in, must_out>>                                *)
 (*        class "judged": the text is a filter, all literals are valid     *)
@@ -49,7 +50,7 @@ Judge(c) ==
                  ELSE IF ~FAllCore(x) THEN PrintT(<<"OK", c.id, "refused_extension_literal", 0, 0>>)
                  ELSE PrintT(<<"REJECT", c.id, "parse_error", <<>>>>))
             ELSE \E al \in {FAllowed(x, c.rows)} :
-                 \E cl \in {FS!ResultClauses(al, 0, c.sel)} :
+                 \E cl \in {FS!ResultClauses(al, IF "k" \in DOMAIN c THEN c.k ELSE 0, c.sel)} :
                     IF cl = {} THEN PrintT(<<"OK", c.id, "judged", Cardinality({i \in 1..Len(al) : al[i] = 1}),
                                               Cardinality({i \in 1..Len(al) : al[i] = 0})>>)
                     ELSE PrintT(<<"REJECT", c.id, IF "selection" \in cl THEN "selection" ELSE CHOOSE z \in cl : TRUE, al>>)
